@@ -47,6 +47,10 @@ def main():
         meta["demo_without"] = {"rc": rc0, "tail": out0[-600:]}
         rc, out = sh(["git", "-C", wt, "apply", os.path.abspath(patch)])
         if rc != 0:
+            # the tree has moved (hook / fix commits): fall back to a 3-way apply
+            rc, out = sh(["git", "-C", wt, "apply", "-3", os.path.abspath(patch)])
+            meta["ran"].append("patch applied 3-way (tree moved since the change was written)")
+        if rc != 0:
             raise SystemExit("patch does not apply: " + out)
         rc, out = sh(build)
         meta["ran"].append("build demo with the change: rc=%d" % rc)
